@@ -272,3 +272,42 @@ _m43 = [m for m in MUTANTS if m['id'] == 'm43'][0]
 _m43['edits'] = [('src/lib/dl/dl.c', _m43['old'], _m43['new']),
                        ('src/lib/dl/dl.c', "/* Free zckDL header regex used for downloading ranges */",
                         "static size_t total_written;\n/* Free zckDL header regex used for downloading ranges */")]
+
+
+# statics that carry text for log messages only: a race on them garbles a message, never data (kept as C19 findings)
+LOG_TEXT_STATICS = ('unknown',)
+
+
+def shared_scratch(ck, prog, config, clause, roots, what):
+    """No function on the path of `roots` (closure over resolved calls) writes an object with static storage: such an
+    object is one per process, so what one context leaves in it is seen by every other context (another thread, or
+    the same thread between two calls), and the result of the operation stops being a function of its own inputs.
+    The static inventory of C19 restricted to a property's own path; log-text buffers are left to C19."""
+    class Proxy(object):
+        def __init__(s):
+            s.found = []
+            s.n = 0
+
+        def ob(s, cl, rule, function, instance, ok, msg, file=None, line=0, **kw):
+            s.n += 1
+            if rule == 'R7.static-write' and not ok:
+                s.found.append((function, instance, msg, file, line))
+            return ok
+
+        def require(s, cond, what_):
+            ck.require(cond, what_)
+
+        def __getattr__(s, name):
+            return getattr(ck, name)
+    px = Proxy()
+    static_inventory(px, prog, config, clause)
+    rf = [prog.need_func(r) for r in roots]
+    seen, _ = prog.reachable_calls(rf)
+    names = set(prog.funcs[q].name for q in seen)
+    bad = [(f, i, m, fl, ln) for f, i, m, fl, ln in px.found if f in names and i.split('::')[-1] not in LOG_TEXT_STATICS]
+    ck.ob(clause, 'R7.shared-scratch', what, 'no-static-writer', not bad,
+          '%d function(s) below %s: none writes an object with static storage (%d static object(s) in the library '
+          'inventoried)' % (len(names), ', '.join(roots), px.n) if not bad else
+          '%s, on the path of %s: %s' % (bad[0][0], ', '.join(roots), bad[0][2]), bad[0][3] if bad else rf[0].file,
+          bad[0][4] if bad else rf[0].line, config=config)
+    return len(names)
